@@ -128,12 +128,12 @@ def case_oracle(case):
         for cand in ([full] if full else []) + [ops + a for a in ATTACKS]:
             cand = EC.normalise_ops(cfg, cand)
             try:
-                real = E.run_real(cfg, cand)
+                real = E.run_real(cfg, cand, **case.get("kw", {}))
             except AssertionError:
                 continue
             res = oracle_lines(cfg, cand, real)
             if res:
-                res[2]["failing_input"] = {"cfg": cfg, "ops": cand}
+                res[2]["failing_input"] = {"cfg": cfg, "ops": cand, "kw": case.get("kw", {})}
                 return res
     return None
 
@@ -157,6 +157,9 @@ def run(ctx):
             ops = EC.gen_ops(ctx.rng, cfg, ctx.n(22, 40), allow_setters=True)
             if cfg[0] == "std" and i % 3 == 2:   # DPPerLayerOptimizer shares the protocol (its joint bound is fixed at construction: no clip writes)
                 cases.append((cfg, [o for o in ops if o[0] != "clip"], {"clipping": "per_layer"}))
+            elif cfg[0] == "std" and not cfg[1] and i % 3 == 1:
+                # Poisson sampling through PrivacyEngine.make_private on a module the USER wrapped in GradSampleModule beforehand
+                cases.append((cfg, ops, {"via_engine": True, "prewrapped": True}))
             else:
                 cases.append((cfg, ops))
         if ctx.thorough:
@@ -180,6 +183,8 @@ def run(ctx):
                     keep.append(case)
             cases = keep
 
+        kws = {}
+
         def on_case(cfg, ops, real, model, diff):
             outs = [EC.parse_line(l)["out"] for l in real[1:]]
             nontrivial = ("released" in outs) and any(o.startswith("err") or o == "skipped" for o in outs)
@@ -191,13 +196,14 @@ def run(ctx):
             # the property oracle runs on every real trace (it is cheap), not only on mismatches
             res = oracle_lines(cfg, ops, real) if not real[0].startswith("harness-assertion") else None
             if res:
-                ctx.property_failure(res[0], res[1], dict(res[2], failing_input={"cfg": cfg, "ops": ops}))
+                ctx.property_failure(res[0], res[1], dict(res[2], failing_input={"cfg": cfg, "ops": ops, "kw": kws.get((cfg, tuple(ops)), {})}))
 
+        kws.update({(c[0], tuple(EC.normalise_ops(c[0], c[1]))): (c[2] if len(c) > 2 else {}) for c in cases})
         bad = EC.compare(ctx, cases, on_case)
         for cfg, ops, real, model, diff in bad[:5]:
             # shrink: shortest prefix that still disagrees
             ops_s = ops[:diff] if diff else ops
-            ctx.mismatch("protocol-machine", {"cfg": cfg, "ops": ops_s, "full_ops": ops}, real[: diff + 1], model[: diff + 1], oracle=case_oracle,
+            ctx.mismatch("protocol-machine", {"cfg": cfg, "ops": ops_s, "full_ops": ops, "kw": kws.get((cfg, tuple(ops)), {})}, real[: diff + 1], model[: diff + 1], oracle=case_oracle,
                          note=f"first differing op index {diff}: {ops[diff-1] if diff else 'new'}")
         # Lean witness replay (ghost_double_release_counterexample) on the real code
         if variant == "asCoded":
